@@ -692,10 +692,10 @@ std::vector<Scenario> scenarios_for(const std::string& prop, int tier) {
         uint32_t fam = F_WR | F_TAIL | F_RDCUT | F_BCLOSE | F_REORDER | F_DELAY | F_NOREPLY | F_LOSS;
         for (int rmv = 1; rmv <= 3; ++rmv) {
             auto mk = [&](const std::string& n, std::vector<Action> sc, int D) { auto s = base(n + "-rm" + std::to_string(rmv), std::move(sc), fam, D, M_C07); s.broker.connack_props = {ref::pnum(0x21, uint32_t(rmv))}; return s; };
-            v.push_back(mk("R-111", {RUN(), PUB(1, 1), PUB(1, 2), PUB(1, 3)}, 2));
+            v.push_back(mk("R-111", {RUN(), PUB(1, 1), PUB(1, 2), PUB(1, 3)}, tier ? 3 : 2));
             v.push_back(mk("R-212", {RUN(), PUB(2, 1), PUB(1, 2), PUB(2, 3)}, tier ? 3 : 2));
             if (rmv < 3) v.push_back(mk("R-12121", {RUN(), PUB(1, 1), PUB(2, 2), PUB(1, 3), PUB(2, 4), PUB(1, 5)}, tier ? 2 : 1));
-            { auto s = mk("R-failing-pubrec-22", {RUN(), PUB(2, 1), PUB(2, 2), PUB(1, 3)}, 2); s.broker.pubrec_rc = 0x80; v.push_back(s); }
+            { auto s = mk("R-failing-pubrec-22", {RUN(), PUB(2, 1), PUB(2, 2), PUB(1, 3)}, tier ? 3 : 2); s.broker.pubrec_rc = 0x80; v.push_back(s); }
             // per-operation cancellation of each publish at any point (injected)
             for (int victim = 1; victim <= 3; ++victim) { auto s = mk("R-cancel-op" + std::to_string(victim), {RUN(), slot(PUB(1, 1)), slot(PUB(2, 2)), slot(PUB(1, 3))}, 2);
                 s.fam |= F_INJECT; s.inject = SIGNAL(victim, 1); v.push_back(s); }
@@ -714,7 +714,7 @@ std::vector<Scenario> scenarios_for(const std::string& prop, int tier) {
     }
     else if (prop == "C08") {
         uint32_t fam = F_WR | F_RDCUT | F_REORDER | F_DELAY | F_BCLOSE;
-        { auto s = base("I-mixed-out-of-order", {RUN(), PUB(1, 1), SUB({{"a", 1}}), PUB(2, 2), UNSUB({"b"}), BARRIER(), PUB(1, 3), PUB(2, 4)}, fam, tier ? 2 : 1, M_C08); v.push_back(s); }
+        { auto s = base("I-mixed-out-of-order", {RUN(), PUB(1, 1), SUB({{"a", 1}}), PUB(2, 2), UNSUB({"b"}), BARRIER(), PUB(1, 3), PUB(2, 4)}, fam, tier ? 3 : 1, M_C08); v.push_back(s); }
         { auto s = base("I-cancel-middle", {RUN(), slot(PUB(1, 1)), slot(PUB(1, 2)), slot(PUB(1, 3)), PUB(1, 4)}, fam | F_INJECT, tier ? 3 : 2, M_C08); s.inject = SIGNAL(2, 1); s.after_inject = {PUB(1, 5), PUB(2, 6)}; v.push_back(s); }
         { // locally rejected requests took an identifier and gave it back exactly once: what is issued afterwards, several at a time, gets distinct identifiers
           std::vector<Action> sc = {RUN(), WAIT_HS(1)}; for (auto& a : rejected_requests(600)) sc.push_back(a); size_t from = sc.size();
@@ -847,7 +847,7 @@ std::vector<Scenario> scenarios_for(const std::string& prop, int tier) {
         for (int K : {0, 1, 2, 5, 60}) for (int ska : {-1, 0, 1, 3}) for (int traffic = 0; traffic < 3; ++traffic) {
             if (!tier && K == 60 && ska > 0) continue;
             std::vector<Action> sc = {RUN()}; if (traffic == 2) { sc.push_back(PUB(1, 1)); sc.push_back(PUB(0, 2)); }
-            Scenario s = base("T-K" + std::to_string(K) + "-ska" + std::to_string(ska) + "-traffic" + std::to_string(traffic), sc, (tier ? F_REORDER | F_RDCUT | F_WR : F_REORDER), tier ? 2 : 1, M_C12);
+            Scenario s = base("T-K" + std::to_string(K) + "-ska" + std::to_string(ska) + "-traffic" + std::to_string(traffic), sc, (tier ? F_REORDER | F_RDCUT | F_WR : F_REORDER), tier ? (traffic == 2 && K <= 2 ? 3 : 2) : 1, M_C12);
             s.keep_alive = uint16_t(K); if (ska >= 0) s.broker.connack_props = {ref::pnum(0x13, uint32_t(ska))};
             s.broker.pingresp = traffic != 0; int negotiated = ska >= 0 ? ska : K;
             s.idle_tail_s = negotiated == 0 ? 3600 : std::max(20, negotiated * 5); s.max_steps = 3000; s.horizon_s = 100000; s.expect_all_success = false;
